@@ -47,7 +47,8 @@ NFMap(rows, p) == [t \in {u \in DOMAIN p : ~IsEmptyText(p[u])} |-> NFProp(RowKin
 NFProp(kind, x) ==
   CASE kind = "item" -> LET y == NFItem(x) IN IF y.k = "list" /\ Len(y.e) = 1 THEN y.e[1] ELSE y
     [] kind = "items" -> NFItem(x)
-    [] kind = "nlv" -> IF Len(x.e) = 1 THEN Nlv(<<LR(NilTag, x.e[1].t)>>) ELSE x
+    \* (an entry whose text is empty carries no text; what remains, if it is one text, returns untagged)
+    [] kind = "nlv" -> LET e == SelectSeq(x.e, LAMBDA r : r.t # "") IN IF Len(e) = 1 THEN Nlv(<<LR(NilTag, e[1].t)>>) ELSE Nlv(e)
     [] kind = "time" -> [k |-> "time", s |-> x.s, ns |-> 0, off |-> 0]
     [] kind \in {"source", "endpoints", "pubkey"} -> [k |-> kind, p |-> NFMap(SubRows(kind), x.p)]
     [] OTHER -> x
